@@ -1352,6 +1352,14 @@ json_parse_string_with_comments(const char *string)
 	remove_comments(string_mutable_copy, "//", "\n");
 	string_mutable_copy_ptr = string_mutable_copy;
 	result = parse_value((const char **) &string_mutable_copy_ptr, 0);
+	if (result != NULL) {
+		/* Only white space may follow the value */
+		SKIP_WHITESPACES(&string_mutable_copy_ptr);
+		if (*string_mutable_copy_ptr != '\0') {
+			json_value_free(result);
+			result = NULL;
+		}
+	}
 	parson_free(string_mutable_copy);
 	return result;
 }
